@@ -249,6 +249,24 @@ def align_workload(mon, tier, shard, nshards, rng):
                 b[rng.randrange(len(b))] = rng.choice(alpha)
         _align.add_x(_align.align(a, b))
         pairs += 1
+    # long sequences (hundreds of elements, few edits, lengths differ, edits near the front, the middle or the
+    # end): a size-dependent shortcut in align() is only reached by them (seeded round 6)
+    nlong = {"quick": 6, "thorough": 60}[tier]
+    for k in range(nlong):
+        n = rng.choice([101, 120, 150, 260, 400])
+        a = [f"e{i % rng.choice([7, 50, 1000])}" for i in range(n)]
+        b = list(a)
+        where = ["front", "middle", "end", "any"][(k + shard) % 4]
+        for _ in range(rng.randint(1, 3)):
+            lo, hi = {"front": (0, 3), "middle": (n // 2 - 2, n // 2 + 2), "end": (n - 4, n - 1), "any": (0, n - 1)}[where]
+            p = min(rng.randint(lo, hi), len(b) - 1)
+            if rng.random() < 0.6:
+                del b[p]
+            else:
+                b.insert(p, "fresh")
+        _align.add_x(_align.align(a, b))
+        _align.add_x(_align.align(b, a))
+        pairs += 2
     return pairs, len(seqs)
 
 
